@@ -524,6 +524,17 @@ func runMutant(repo string, m Mutant, timeout int) (failed []string, rejected st
 			}
 			seen[c.Key] = true
 			r := generate(P, c)
+			// keep the obligations that serve one of the mutant's properties
+			var keep []*Obligation
+			for _, o := range r.Obls {
+				for _, mp := range m.Props {
+					if hasProp(o.Props, mp) {
+						keep = append(keep, o)
+						break
+					}
+				}
+			}
+			r.Obls = keep
 			results = append(results, r)
 		}
 		results = append(results, lemmaObligations(P, p)...)
